@@ -182,3 +182,84 @@ for _fn in ('_ClientHelloTimeout', '_ChallengeResponseTimeout'):
                                        connection_callback=None, server_public_key=None, session_salt=None, version=1,
                                        last_latency_update_time=E.int('llut')), success=E.bool('success'))
         modifies = []
+
+
+# ---- the configuration of the client object (pinned server key, keep-alive interval, timeouts) outlives its connections
+def make_configured_client(E, with_conn):
+    c = make_client(E, with_conn)
+    c.attrs['server_public_key'] = E.ghost('pinned_key', E.plain_obj(tag='pinned_key'))
+    c.attrs['sock'] = Opaque('socket', {})          # (socket library: close() returns nothing and does not raise - assumed)
+    return c
+
+
+def config_kept(old, self, ghost):
+    return (self.server_public_key is ghost.pinned_key) & S.eq(self.keep_alive_interval, old.self.keep_alive_interval) \
+        & S.eq(self.temp_connection_timeout, old.self.temp_connection_timeout) & S.eq(self.outgoing_timeout, old.self.outgoing_timeout)
+
+
+@contract('client.UdpClient.connect', props=['C02', 'C12'], variant='pinned-key')
+class _:
+    """the key the client was configured with is the key the new connection verifies the server hello against (C02: the client
+    keeps insisting on its configured server key), and connecting does not change the configuration"""
+    def setup(E):
+        c = make_configured_client(E, False)
+        c.attrs['sock'] = None
+        return dict(self=c, addr=('127.0.0.1', 1474), callback=None)
+    uses = ['client.UdpClient._make_socket', 'connection.ClientServerConnection._sendClientHello@frame']
+    ensures = {
+        'new-connection-verifies-against-the-configured-key': lambda self, ghost: self.conn.server_public_key is ghost.pinned_key,
+        'configuration-kept': lambda old, self, ghost: config_kept(old, self, ghost),
+    }
+
+
+def replay_config(label, model):
+    return '''
+import sys
+from mpgameserver.client import UdpClient
+bad = []
+for how in ("forceDisconnect", "waitForDisconnect"):
+    key = object()
+    c = UdpClient(server_public_key=key)
+    c.setKeepAliveInterval(0.25); c.setConnectionTimeout(0.5); c.setMessageTimeout(0.75)
+    getattr(c, how)()
+    got = (c.server_public_key is key, c.keep_alive_interval, c.temp_connection_timeout, c.outgoing_timeout)
+    if got != (True, 0.25, 0.5, 0.75):
+        bad.append("%s: pinned key kept=%s keep-alive=%s connect-timeout=%s message-timeout=%s" % ((how,) + got))
+for b in bad: print(b)
+sys.exit(1 if bad else 0)
+'''
+
+
+def socket_close(ip, fn, args, kwargs):
+    """assumed (socket library): close() returns nothing, does not raise and touches no object of the program"""
+    ip.ctx.lib_used.add('socket.close(): returns None, does not raise (assumed)')
+    return None
+
+
+for _with in (False, True):
+    @contract('client.UdpClient.forceDisconnect', props=['C02', 'C12'], variant='with-connection' if _with else 'without-connection')
+    class _:
+        hooks = {'opaque:socket.close': socket_close}
+        replay = replay_config
+        """dropping the connection forgets the connection and the socket - not the pinned server key nor the configured
+        intervals: the next connect() is as strict as the first"""
+        def setup(E, _with=_with):
+            return dict(self=make_configured_client(E, _with))
+        ensures = {
+            'connection-and-socket-dropped': lambda self: (self.conn is None) & (self.sock is None),
+            'configuration-kept': lambda old, self, ghost: config_kept(old, self, ghost),
+        }
+
+
+@contract('client.UdpClient.waitForDisconnect', props=['C02', 'C12'], variant='without-connection')
+class _:
+    """(no live connection: nothing to wait for) the socket is closed, the configuration is kept"""
+    hooks = {'opaque:socket.close': socket_close}
+    replay = replay_config
+
+    def setup(E):
+        return dict(self=make_configured_client(E, False))
+    ensures = {
+        'connection-and-socket-dropped': lambda self: (self.conn is None) & (self.sock is None),
+        'configuration-kept': lambda old, self, ghost: config_kept(old, self, ghost),
+    }
